@@ -320,7 +320,7 @@ func opsBSI(cfg bsiCfg, quick bool) []opB {
 		}
 		return n, nil
 	})
-	for kind, kname := range []string{"", "a fresh full-range index", "a used default index"} {
+	for kind, kname := range []string{"", "a fresh full-range index", "a used default index", "a used full-range index whose columns hold wider values"} {
 		kind, kname := kind, kname
 		if kind == 0 {
 			continue
